@@ -210,7 +210,8 @@ class FalsyStrictUndefined(StrictUndefined):
         return False
 
     def __eq__(self, other: object) -> bool:
-        return other is False
+        # Same as the default undefined type: equal to nil and to other undefined values.
+        return other is None or isinstance(other, Undefined)
 
 
 def is_undefined(obj: object) -> bool:
